@@ -78,6 +78,12 @@ def main():
                     breaks.append({'kind': 'axiom', 'what': f'theorem {n}: {why}'})
             for f, h in vlib.source_audit():
                 breaks.append({'kind': 'forbidden', 'what': f'{f}: {h}'})
+            # thorough tier: the compiled property modules are replayed through Lean's independent re-checker
+            if ok and tier == 'thorough':
+                for tf in getattr(mod, 'THEOREM_FILES', [prop]):
+                    rc, out, err = vlib.sh(['lake', 'env', 'leanchecker', f'Avra.Props.{tf}'], cwd=vlib.LEAN)
+                    if rc != 0:
+                        breaks.append({'kind': 'theorem', 'what': f'leanchecker rejects Avra.Props.{tf}: {(out + err)[-300:]}'})
     except vlib.BuildBroken as e:
         print('CHECK-BROKEN: ' + str(e)[:3000])
         sys.exit(2)
